@@ -1,6 +1,7 @@
 package mon
 
 import (
+	"math/big"
 	crand "crypto/rand"
 	"encoding/base64"
 	"fmt"
@@ -901,6 +902,65 @@ func mustB64(s string) []byte {
 	return b
 }
 
+// c10RSAExponents: RSA keys whose public exponent is not the usual 65537 - one to four octets long, up to
+// the 2^31-1 the statement's "supported" keys can have - and keys that state the exponent length in the
+// three-octet form of RFC 3110 s.2. What such a key signs verifies, independently and with Verify.
+func c10RSAExponents(w *core.W, j int) {
+	exps := []int{3, 17, 257, 65537, 0x01000001, 0x7FFFFFFF}
+	e := exps[j%len(exps)]
+	long := (j/len(exps))%2 == 1
+	alg := []uint8{dns.RSASHA256, dns.RSASHA1, dns.RSASHA512, dns.RSASHA1NSEC3SHA1}[(j/(2*len(exps)))%4]
+	k, err := rsaExponentKey(alg, "rsa-exp.example.", 256+uint16(j%2), e, long)
+	if err != nil {
+		w.Inconclusive("keygen:" + err.Error())
+		return
+	}
+	form := "short-length-form"
+	if long {
+		form = "long-length-form"
+	}
+	zone := mustName("rsa-exp.example.")
+	rec := &model.Rec{Owner: append(model.Name{[]byte("host")}, zone...), Type: 1, Class: 1, TTL: 300, L: model.Layouts[1], Vals: []any{[]byte{192, 0, 2, byte(j)}}}
+	set := c10Set{recs: []*model.Rec{rec}}
+	sig := &dns.RRSIG{Algorithm: alg, KeyTag: k.Key.KeyTag(), SignerName: "rsa-exp.example.", Inception: 1_700_000_000, Expiration: 1_800_000_000}
+	wit := map[string]any{"alg": algName(alg), "exponent": e, "form": form, "dnskey": k.Key.String()}
+	w.Eval(1)
+	var serr error
+	if w.Guard("RRSIG.Sign", wit, func() { serr = sig.Sign(k.Priv, set.build()) }) {
+		return
+	}
+	if serr != nil {
+		w.Violation("C10/sign-fails/rsa-exponent/"+form, fmt.Sprintf("Sign with an RSA key of exponent %d: %v", e, serr), wit)
+		return
+	}
+	wit["rrsig"] = sig.String()
+	ok, why := c10ModelAccepts(sig, k.Key, set)
+	if !ok {
+		w.Violation("C10/sign-output-invalid/rsa-exponent/"+form, fmt.Sprintf("the signature of an RSA key with exponent %d does not verify independently: %s", e, why), wit)
+		return
+	}
+	var verr error
+	if w.Guard("RRSIG.Verify", wit, func() { verr = sig.Verify(k.Key, set.build()) }) {
+		return
+	}
+	if verr != nil {
+		w.Violation("C10/own-signature-rejected/rsa-exponent/"+form, fmt.Sprintf("Verify rejects the signature of an RSA key with exponent %d (%d octets, %s): %v", e, len(big.NewInt(int64(e)).Bytes()), form, verr), wit)
+	}
+	// the same key material with the other spelling of the exponent length is another DNSKEY RDATA with
+	// (almost always) another tag: its tag must not be taken for this key's
+	w.Count("rsa_exponent_keys", 1)
+	w.Cover("rsa_exponent", fmt.Sprintf("%d/%s", e, form))
+	w.NontrivialStr("rsa-exp", sig.Signature)
+	// a flipped signature bit still fails
+	raw, _ := base64.StdEncoding.DecodeString(sig.Signature)
+	raw[len(raw)-1] ^= 1
+	bad := *sig
+	bad.Signature = base64.StdEncoding.EncodeToString(raw)
+	if bad.Verify(k.Key, set.build()) == nil {
+		w.Violation("C10/accepts-invalid/rsa-exponent/signature-bit", fmt.Sprintf("Verify accepts a damaged signature under an RSA key with exponent %d", e), wit)
+	}
+}
+
 func init() {
 	plan, run := sections(section{"rrsets", tiered(360, 12000), c10Case},
 		section{"same-tag-keys", tiered(10, 200), c10SameTagKeys},
@@ -908,12 +968,13 @@ func init() {
 			w.Eval(1)
 			concurrentRRSIGVerify(w, j, "C10/concurrent-verify-fails")
 		}},
-		section{"many-signatures", tiered(15, 300), c10ManySignatures})
+		section{"many-signatures", tiered(15, 300), c10ManySignatures},
+		section{"rsa-exponents", tiered(24, 96), c10RSAExponents})
 	core.Register(&core.Monitor{
 		ID: "C10", Level: "exploration", Plan: plan, Run: run, MaxParallel: 16, CaseTimeout: 300e9,
 		Rule: "RRsets of every signable registry type (1..6 records, repeated records, mixed case, escaped names, wildcard and multi-label owners) x RSASHA1/256(1024,2048)/512, ECDSA P-256/P-384, Ed25519 with keys generated per run; " +
 			"oracle = independent verifier (own RFC 4034 s.3.1.8.1/6.2/6.3 + RFC 6840 s.5.1 canonical form, own RFC 3110/6605/8080 key decoding, Go crypto): Sign output must verify independently and with Verify; harness-made signatures over the model form must be accepted; " +
-			"irrelevant variants (order, repeats, TTL, owner case, s.6.2 name case, wildcard expansions of 1..3 labels, RFC 1035 \\X spellings of letters in owner labels and embedded names - verified and signed from) must verify; RRSIG/DNSKEY owners differing by 0x20 in a non-letter (^~ [{ ]} `@) must not; ~60 single-field alterations of RRSIG/DNSKEY/RRset and signature/key bit flips (all signature bits in thorough): Verify==nil implies the model accepts; hundreds of signatures per key over one small RRset (the one-in-256 short r, s of RFC 6605 encodings), each verified both ways; 8 goroutines verifying 4 valid (RRSIG, key, RRset) triples of their own and a shared one at the same time: every call succeeds; non-trivial = distinct signed RRset",
+			"irrelevant variants (order, repeats, TTL, owner case, s.6.2 name case, wildcard expansions of 1..3 labels, RFC 1035 \\X spellings of letters in owner labels and embedded names - verified and signed from) must verify; RRSIG/DNSKEY owners differing by 0x20 in a non-letter (^~ [{ ]} `@) must not; ~60 single-field alterations of RRSIG/DNSKEY/RRset and signature/key bit flips (all signature bits in thorough): Verify==nil implies the model accepts; hundreds of signatures per key over one small RRset (the one-in-256 short r, s of RFC 6605 encodings), each verified both ways; RSA keys with public exponents 3, 17, 257, 65537, 2^24+1 and 2^31-1 whose exponent length is stated in the one-octet and in the three-octet form of RFC 3110; 8 goroutines verifying 4 valid (RRSIG, key, RRset) triples of their own and a shared one at the same time: every call succeeds; non-trivial = distinct signed RRset",
 		Assumptions: []string{"NXT, SIG and A6 RRsets are not generated (obsolete)", "signature validity windows are not part of Verify (see C17 for ValidityPeriod)"},
 		MinObserved: []string{"signed", "harness_signatures", "alterations_rejected"},
 	})
